@@ -345,10 +345,15 @@ func (s *Session) tryReplay(u *Unit, o *Obligation) *ReplayResult {
 		rr.Note = "no replay template: " + err.Error()
 		return rr
 	}
-	vals, desc := s.modelValues(u, o)
+	var vals map[string]string
+	var desc string
+	if o.Result.Status == "sat" {
+		vals, desc = s.modelValues(u, o)
+	}
 	if vals == nil {
-		rr.Note = "model extraction failed: " + desc
-		return rr
+		// no model (quantified obligation answered unknown, or extraction failed): search the template's
+		// boundary corpus for a witness; every candidate is judged by the oracle on the real code
+		return s.corpusReplay(u, o, string(tb), desc)
 	}
 	rr.Inputs = desc
 	tmpl, err := template.New("r").Option("missingkey=error").Parse(string(tb))
@@ -380,6 +385,67 @@ func (s *Session) tryReplay(u *Unit, o *Obligation) *ReplayResult {
 	rr.Cmd = cmd
 	rr.TestOutput = trunc(out, 6000)
 	rr.Reproduced = failed && strings.Contains(out, "GOCV-REPRODUCED")
+	return rr
+}
+
+var corpusRe = regexp.MustCompile(`(?m)^// corpus: (\w+) = (.*)$`)
+
+func (s *Session) corpusReplay(u *Unit, o *Obligation, tmplText, why string) *ReplayResult {
+	rr := &ReplayResult{Template: u.Con.Replay, Note: "solver gave no usable model (" + why + "); boundary corpus searched"}
+	ms := corpusRe.FindAllStringSubmatch(tmplText, -1)
+	if len(ms) == 0 {
+		rr.Note = "no model and the template has no corpus: " + why
+		return rr
+	}
+	tmpl, err := template.New("r").Option("missingkey=error").Parse(tmplText)
+	if err != nil {
+		rr.Note = "template: " + err.Error()
+		return rr
+	}
+	fn := u.Key
+	if i := strings.LastIndex(fn, "."); i >= 0 {
+		fn = fn[i+1:]
+	}
+	// one-dimensional corpora only (first variable varies, others take their first value)
+	var names []string
+	var alts [][]string
+	for _, m := range ms {
+		names = append(names, m[1])
+		var a []string
+		for _, x := range strings.Split(m[2], " | ") {
+			a = append(a, strings.TrimSpace(x))
+		}
+		alts = append(alts, a)
+	}
+	pk := regexp.MustCompile(`(?m)^// pkgdir: (\S+)`).FindStringSubmatch(tmplText)
+	if pk == nil {
+		rr.Note = "template lacks // pkgdir:"
+		return rr
+	}
+	rr.PkgDir = pk[1]
+	for vi := range names {
+		for _, cand := range alts[vi] {
+			data := map[string]string{"Obligation": o.Name, "Func": fn}
+			for j, n := range names {
+				data[n] = alts[j][0]
+			}
+			data[names[vi]] = cand
+			var buf bytes.Buffer
+			if err := tmpl.Execute(&buf, data); err != nil {
+				rr.Note = "template exec: " + err.Error()
+				return rr
+			}
+			out, failed, cmd := runOverlayTest(s.repo, rr.PkgDir, buf.String())
+			if failed && strings.Contains(out, "GOCV-REPRODUCED") {
+				rr.Cmd = cmd
+				rr.TestSource = buf.String()
+				rr.TestOutput = trunc(out, 6000)
+				rr.Inputs = names[vi] + "=" + cand + " (found by corpus search, not from a solver model)"
+				rr.Reproduced = true
+				return rr
+			}
+		}
+	}
 	return rr
 }
 
